@@ -262,9 +262,11 @@ func (x *Exec) callWrites0(c *ssa.CallCommon, ws *WriteSet, visiting map[*ssa.Fu
 			for _, k := range x.keysUnder("E", x.sliceElem(c.Args[0].Type()), nil) {
 				ws.keys[k] = true
 			}
-		case "delete":
-			for _, k := range x.mapKeys(c.Args[0].Type()) {
-				ws.keys[k] = true
+		case "delete", "clear":
+			if _, isMap := c.Args[0].Type().Underlying().(*types.Map); isMap {
+				for _, k := range x.mapKeys(c.Args[0].Type()) {
+					ws.keys[k] = true
+				}
 			}
 		case "close":
 			x.keyInfo["G|chanclosed"] = compInfo{sort: "(Array Int Bool)"}
